@@ -127,3 +127,24 @@ def environment_hidden(n: str) -> bool:
     """
     before = dict(os.environ)
     return ev(T_ENV['env'], n=n) == [] and ev(T_ENV['all']) == [] and ev(T_ENV['env'], n='PATH') == [] and dict(os.environ) == before
+
+
+# --- added after seeded-change review: DOCTYPE/entity rejection in fn:parse-xml / parse-xml-fragment (bug-hunting: expat is C code) ---
+
+PREFIXES = ('', ' ', chr(10), '<!-- c -->', '<?p q?>', '<?xml version="1.0"?>', '<?xml version="1.0"?><!-- c -->', '<!-- a --><?p q?> ')
+T_XML = parse_all({'frag': 'parse-xml-fragment($t)', 'doc': 'parse-xml($t)'})
+
+
+@ob(budget=60, tbudget=300, kind='hunt', bound='XML text = prefix (8 prolog variants chosen by the solver) + DOCTYPE declaring an internal entity + element using it: parse-xml and parse-xml-fragment must raise, never expand (expat is C code: bug-hunting only)',
+    funcs=['elementpath/xpath30/_xpath30_functions.py:parse-xml/parse-xml-fragment', 'elementpath/etree.py:defuse_xml'])
+def entities_rejected(pi: int, frag: bool) -> bool:
+    """
+    pre: 0 <= pi <= 7
+    post: _
+    """
+    text = PREFIXES[pi] + '<!DOCTYPE d [<!ENTITY e "boom">]><d>&e;</d>'
+    try:
+        r = T_XML['frag' if frag else 'doc'].evaluate(XPathContext(item=1, variables={'t': text}))
+    except ElementPathError:
+        return True
+    return False
